@@ -201,16 +201,17 @@ on...",
         Returns:
             None
         """
-        if S not in MS:
+        if len(MS) == 0 or S is not MS[0]:
             return None
 
         restart_from = min([me.status.slot for me in MS if me.status.restart] + [size - 1])
 
-        if S.status.slot < restart_from:
-            MS[restart_from - S.status.slot].status.restarts_in_a_row = 0
-        else:
-            step = MS[S.status.slot - restart_from]
-            step.status.restarts_in_a_row = S.status.restarts_in_a_row + 1 if S.status.restart else 0
+        # the steps from `restart_from` on move to the front of the next block, the remaining steps are new ones.
+        # Collect the new values before assigning them, because steps are both read and written here.
+        restarts_in_a_row = [me.status.restarts_in_a_row + 1 if me.status.restart else 0 for me in MS[restart_from:]]
+        restarts_in_a_row += [0] * (len(MS) - len(restarts_in_a_row))
+        for me, n in zip(MS, restarts_in_a_row):
+            me.status.restarts_in_a_row = n
 
         return None
 
